@@ -408,3 +408,75 @@ def check_contextmanager(ctx, rule, m, node, construct):
                       'raised inside the with-block leaves the state changed for the rest of the session' % (construct, t, norm(st)),
                where='%s:%d' % (m.relpath, st.lineno))
     return n
+
+
+# ---------------------------------------------------------------------------------------
+# must-pass-through on the statement CFG
+def node_expr(cfg, n):
+    """The part of the ast a CFG node evaluates itself (header expression of compound statements)."""
+    st = cfg.stmt[n]
+    if st is None:
+        return None
+    k = cfg.kind[n]
+    if k in ('if', 'while'):
+        return st.test
+    if k == 'for':
+        return st.iter
+    if k == 'with':
+        return ast.Tuple(elts=[i.context_expr for i in st.items], ctx=ast.Load())
+    if k in ('try', 'except', 'def', 'finally-entry', 'match'):
+        return None
+    return st
+
+
+def nodes_where(cfg, pred):
+    out = []
+    for n in cfg.nodes():
+        e = node_expr(cfg, n)
+        if e is not None and pred(e):
+            out.append(n)
+    return out
+
+
+def has_call(expr, names):
+    """Does expr contain a call whose callee's last name is in ``names``?"""
+    for c in ast.walk(expr):
+        if isinstance(c, ast.Call) and call_name(c) in names:
+            return True
+    return False
+
+
+def must_reach(ctx, rule, func, writes, reaches, what, detail, allowed_guard=None, cfg=None, construct=None):
+    """Every normal path from each write node to the exit passes a reach node.
+
+    ``writes``/``reaches``: predicates on the node expression.  ``allowed_guard(test_src)`` returns the
+    edge label ('true'/'false') of an ``if`` that may legitimately skip the obligation, or None."""
+    from ..cfg import CFG, EXIT
+    cfg = cfg or CFG(func.node)
+    W = nodes_where(cfg, writes)
+    U = set(nodes_where(cfg, reaches))
+    pruned = set()
+    if allowed_guard is not None:
+        for n in cfg.nodes():
+            if cfg.kind[n] == 'if':
+                lab = allowed_guard(unparse(cfg.stmt[n].test))
+                if lab:
+                    pruned.add((n, lab))
+    results = []
+    for w in W:
+        st = cfg.stmt[w]
+        path = cfg.path_avoiding(w, EXIT, avoid=U - {w}, labels_excluded=('exc', 'raise'), pruned_edges=pruned) \
+            if w not in U or True else None
+        if w in U:
+            path = None if _only_self(cfg, w, U) else path
+        ok = path is None
+        c = construct or func.construct
+        ctx.ob(rule, '%s `%s`' % (c, norm(node_expr(cfg, w))), what, ok,
+               detail=detail % dict(func=func.construct, stmt=norm(node_expr(cfg, w))),
+               where=where(func, st), path=cfg.guards_on_path(path) if path else None)
+        results.append((w, ok))
+    return W, U, cfg
+
+
+def _only_self(cfg, w, U):
+    return False
